@@ -50,6 +50,8 @@ func caseFromSx(v sx.V) (Case, error) {
 		return copyCase{copyCaseFromSx(v)}, nil
 	case "unit":
 		return unitCaseFromSx(v), nil
+	case "cache":
+		return cacheCase{cacheCaseFromSx(v)}, nil
 	}
 	return nil, fmt.Errorf("unknown family %q", v.N(0).Str())
 }
@@ -66,18 +68,20 @@ func generate(prop, tier string, rng *Rng) []Case {
 		return genC04(tier, rng)
 	case "C20":
 		return genC20(tier, rng)
+	case "C08":
+		return genC08(tier, rng)
 	case "C15":
 		return genRangeUnit(tier)
 	case "C06":
 		return genRecompUnit()
 	case "C07":
-		return genMetaUnit(tier, rng)
+		return append(genMetaUnit(tier, rng), genC07Hist(tier, rng)...)
 	case "C10":
-		return genCCUnit(tier, rng)
+		return append(genCCUnit(tier, rng), genC10Hist(tier, rng)...)
 	case "C11":
 		return append(genKeyUnit(tier, rng), genKeyPairs(tier, rng)...)
 	case "C09":
-		return genEtagUnit()
+		return append(genEtagUnit(), genC09Hist(tier, rng)...)
 	}
 	fmt.Fprintf(os.Stderr, "hx: no generator for %s\n", prop)
 	os.Exit(2)
@@ -178,6 +182,7 @@ func runAll(prop string, cases []Case) {
 		}()
 	}
 	wg.Wait()
+	cleanupScratch()
 	out := bufio.NewWriterSize(os.Stdout, 1<<20)
 	defer out.Flush()
 	bad := 0
